@@ -1,6 +1,6 @@
 (* C10 property theorems. Nothing but statements closed by `exact lemma` and Print Assumptions, plus Examples. *)
 From Coq Require Import NArith List Bool.
-From OG Require Import C10.Model C10.Proofs.
+From OG Require Import C10.Model C10.Proofs C10.Regex C10.RegexProofs C10.RegexSearch.
 Import ListNotations.
 Open Scope N_scope.
 
@@ -86,3 +86,56 @@ Proof.
   repeat split; simpl; repeat constructor; simpl; try (intros [H | H]; try discriminate; try contradiction);
     try discriminate; try tauto.
 Qed.
+
+(* ---- regex atoms through the model of the tag-filter translation (Regex.v) ----
+
+   The repaired translation (unanchored matching on the unescaped value, an absent tag is the empty string) makes the
+   predicate search exact for every table of pattern trees, every table of strings, every well-formed key set and every
+   predicate tree: = / != / =~ / !~ under AND / OR / parentheses, incl. != and !~ on series without the tag. *)
+Theorem C10_repaired_regex_search_is_bruteforce : forall pats strs L m e, wfL L -> expr_ok e ->
+  forall id, In id (search (am_repaired pats strs) (postings L) m e) <-> In id (bruteforce (am_repaired pats strs) L m e).
+Proof. exact repaired_search_exact. Qed.
+Print Assumptions C10_repaired_regex_search_is_bruteforce.
+
+(* Characterisation of today's translation (simplify loop, literal prefix, or-values, optimised suffix matchers, isAllMatch,
+   matching on escaped item bytes): on a pattern of an exact shape - a pure literal, an expression without position
+   assertions that can match the empty string, ^literal - and a value without the separator bytes 0, 1, 2 (or the absent
+   tag) it selects exactly what unanchored matching selects. The signatures of the regex findings are the complement. *)
+Theorem C10_current_regex_exact : forall r v,
+  exact_shape r = true -> match v with Some x => plain x | None => True end ->
+  current_match r v = repaired_match r v.
+Proof. exact current_regex_exact. Qed.
+Print Assumptions C10_current_regex_exact.
+
+(* ... hence today's search equals brute force with the language's matching whenever every pattern of the predicate has an
+   exact shape and no stored string contains a separator byte *)
+Theorem C10_current_search_exact_on_exact_shapes : forall pats strs L m e,
+  wfL L -> expr_ok e -> all_plain strs ->
+  (forall p, In p (re_pats e) -> exact_shape (pat_of pats p) = true) ->
+  forall id, In id (search (am_current pats strs) (postings L) m e) <-> In id (bruteforce (am_repaired pats strs) L m e).
+Proof. exact current_search_exact. Qed.
+Print Assumptions C10_current_search_exact_on_exact_shapes.
+
+(* an assertion-free expression that can match the empty string matches every value (isAllMatch is right for it) *)
+Theorem C10_nullable_matches_everything : forall r w, has_assert r = false -> nullable r = true -> unanch r w = true.
+Proof. exact nullable_unanch. Qed.
+Print Assumptions C10_nullable_matches_everything.
+
+(* The select path's tag-filter result cache is transparent - every sequence of regex filter queries gets the answers it
+   would get without the cache - when a filter is filed under its pattern's source text and negation flag (the repaired key),
+   for every parser and every translation. *)
+Theorem C10_tagfilter_cache_transparent : forall parse mt qs,
+  cached_run tfq (list N * bool) _ tf_key_repaired tf_keqb (tf_answer parse mt) [] qs = map (tf_answer parse mt) qs.
+Proof. exact tagfilter_cache_transparent_repaired. Qed.
+Print Assumptions C10_tagfilter_cache_transparent.
+
+(* non-vacuity: /web/, /.*/, /a*|b/ and /^web/ have exact shapes; "web-1" is plain; the characterisation applies *)
+Example C10_exact_shapes_exist :
+  exact_shape (RLit false [119; 101; 98]) = true /\ exact_shape (RStar RAnyNL) = true /\
+  exact_shape (RAlt [RStar (RLit false [97]); RLit false [98]]) = true /\
+  exact_shape (RConcat [RBeginText; RLit false [119; 101; 98]]) = true /\
+  exact_shape (RClass [(100, 100); (119, 119)]) = false /\
+  plain [119; 101; 98; 45; 49] /\
+  current_match (RConcat [RBeginText; RLit false [119; 101; 98]]) (Some [119; 101; 98; 45; 49]) = true /\
+  all_plain [(1, [119; 101; 98]); (2, [100; 98])].
+Proof. repeat split; try reflexivity; repeat constructor; discriminate. Qed.
